@@ -38,9 +38,21 @@ def main():
             out[tier] = {"exit": r.returncode, "wall_s": round(time.time() - t0, 1), "message": (msg[0][:300] if msg and r.returncode == 1 else "")}
             if r.returncode == 1:
                 break
+        det = next((t for t in out if out[t]["exit"] == 1), None)
+        other = []
+        if det is None and "--cross" in sys.argv:
+            # which *other* property's check reports this change (recorded separately; not counted as detection)
+            for k in range(1, 21):
+                q = "C%02d" % k
+                if q == prop:
+                    continue
+                r = sh("./check %s quick" % q, VERIF)
+                if r.returncode == 1:
+                    msg = [l.strip() for l in r.stdout.splitlines() if l.startswith("  ")]
+                    other.append({"check": "./check %s quick" % q, "message": (msg[0][:200] if msg else "")})
+        meta["reported_by_other_checks"] = other
         sh("git checkout -- .", REPO)
         sh("rm -rf %s/replays/*/found" % VERIF)
-        det = next((t for t in out if out[t]["exit"] == 1), None)
         meta["detected_by"] = ("./check %s %s" % (prop, det)) if det else None
         meta["check_runs"] = out
         json.dump(meta, open(os.path.join(d, "meta.json"), "w"), indent=1)
